@@ -31,6 +31,7 @@ def mLabel (s : St) : String :=
   match s.mpc with
   | .none => "-" | .start => "start"
   | .addAcq _ => "acquire(cq.sem,B)" | .addTStart _ => "tstart(F)"
+  | .addAcqF _ => "acquire(cq.sem,B)" | .addTStartF _ => "tstart(F)"
   | .wait snap => "wait(rq.pipe,wakeup" ++ (if snap.isEmpty then "" else "," ++ showPids snap) ++ ")"
   | .recv => "recv(rq.pipe)"
   | .clrPoll _ => "poll(wakeup,NB)" | .clrRecv _ => "recv(wakeup)"
